@@ -27,4 +27,7 @@ def f23 : Bool := true
 /-- F24: WriteTar applies the hard-link reset to the view it is given (as Send does) -/
 def f24 : Bool := true
 
+/-- F25: a follow path that leads to the root removes the include filter even when IncludePatterns are given -/
+def f25 : Bool := true
+
 end Fsm.Fix
